@@ -79,11 +79,17 @@ class Hist:
         self.toks.append('C:%d:%d' % (k, n))
         self.times.append(self.now)
 
+    def det(self, k, n):
+        """n presentations overlapping deterministically: the first is parked inside registerRandom's clock read
+        (WorldState.Now is the seam), the others are started meanwhile, then the first is released"""
+        self.toks.append('D:%d:%d' % (k, n))
+        self.times.append(self.now)
+
     def line(self):
         return '%s %d %s' % (self.id, self.start, ' '.join(self.toks))
 
     def ops(self):
-        return [t for t in self.toks if t[0] in 'SPC']
+        return [t for t in self.toks if t[0] in 'SPCD']
 
 
 def gen_histories(ctx):
@@ -180,6 +186,21 @@ def gen_histories(ctx):
             h.present(k2)
             h.conc(k2, n)
         end(h)
+    # 4b. the same, deterministically through the clock seam: the first presenter parked between lookup and
+    #     insertion (inside registerRandom's clock read), the others arriving meanwhile; fresh packet / packet
+    #     seen before / packet whose entry has been evicted; followed by a sequential presentation
+    for n in (2, 3, 5, 9):
+        for shape in ('fresh', 'seen', 'after-sleep'):
+            h = begin('d')
+            k = h.new('tls', h.now // S + rng.choice([0, 10, -10]))
+            if shape == 'seen':
+                h.present(k)
+            if shape == 'after-sleep':
+                h.present(k)
+                h.sleep(PERIOD + 400 * S)      # the entry has been evicted, the timestamp is out of the window
+            h.det(k, n)
+            h.present(k)
+            end(h)
     # 5. every single-bit variant of the 32-byte random; original first / variant first
     for order in ('orig-first', 'var-first'):
         h = begin('b')
@@ -236,6 +257,9 @@ def gen_histories(ctx):
     return hs
 
 
+DET_PATTERNS = {}     # history id -> {op index: per presenter P parked in the clock read | L waiting for a lock | F finished}
+
+
 def parse_go(out_path):
     """-> {id: (facts tokens, [(obs, size, time)])}"""
     res = {}
@@ -246,6 +270,9 @@ def parse_go(out_path):
         ln = ln.strip()
         if ln == '# done':
             done = True
+        if ln.startswith('#det '):
+            f = ln.split()
+            DET_PATTERNS.setdefault(f[1], {})[int(f[2])] = f[3]
         if not ln or ln.startswith('#'):
             continue
         head, _, tail = ln.partition(' | ')
@@ -264,6 +291,7 @@ def model_line(h_id, start, facts, op_toks, mode=None):
     for f in facts:
         p = f.split(':')           # K:parses:random:ts:block
         ks.append('K:%s:%s:%s' % (p[1], p[2], p[3]))
+    op_toks = [('C' + t[1:]) if t[0] == 'D' else t for t in op_toks]     # the model's step for both: C08_concurrent
     return '%s %d %s%s %s' % (h_id, start, ('M:%s ' % mode) if mode else '', ' '.join(ks), ' '.join(op_toks))
 
 
@@ -286,7 +314,8 @@ def oracle(facts, op_toks, obs):
             same = (first[1] == k)
             what = ('sealed block %s.. accepted again: op #%d (%s, packet %d) at t=%d ns after op #%d (packet %d) at t=%d ns'
                     % (block[k][:16], i, tok, k, t, first[0], first[1], first[2])) if prev else \
-                   ('%d of the simultaneous presentations %s were accepted at t=%d ns' % (n, tok, t))
+                   (('%d of the simultaneous presentations %s were accepted at t=%d ns' % (n, tok, t)) if p[0] != 'D' else
+                    ('%d of the %s overlapping presentations %s were accepted at t=%d ns (deterministic schedule: the first presenter is held inside the clock read of registerRandom, the others present the same packet meanwhile, then the first is released)' % (n, p[2], tok, t)))
             sig = 'replay-accepted:' + ('concurrent' if not prev and n > 1 else ('same-packet' if same else 'altered-copy'))
             return sig, what, first[0], i
         acc.setdefault(block[k], []).append((i, k, t))
@@ -320,7 +349,7 @@ def check_case(ctx, line, tag):
     if cid not in res:
         return None, None
     facts, obs = res[cid]
-    ops = [t for t in line.split()[2:] if t[0] in 'SPC']
+    ops = [t for t in line.split()[2:] if t[0] in 'SPCD']
     return oracle(facts, ops, obs), res[cid]
 
 
@@ -329,8 +358,8 @@ def compact(line):
     f = line.split()
     head, toks = f[:2], f[2:]
     decl = [t for t in toks if t[0] in 'NV']
-    ops = [t for t in toks if t[0] in 'SPC']
-    used = set(int(t.split(':')[1]) for t in ops if t[0] in 'PC')
+    ops = [t for t in toks if t[0] in 'SPCD']
+    used = set(int(t.split(':')[1]) for t in ops if t[0] in 'PCD')
     for i in range(len(decl) - 1, -1, -1):          # a variant needs its base
         if i in used and decl[i][0] == 'V':
             used.add(int(decl[i].split(':')[1]))
@@ -343,7 +372,7 @@ def compact(line):
             nd.append(d)
     no = []
     for t in ops:
-        if t[0] in 'PC':
+        if t[0] in 'PCD':
             p = t.split(':'); p[1] = str(remap[int(p[1])]); t = ':'.join(p)
         no.append(t)
     return ' '.join(head + nd + no)
@@ -355,7 +384,7 @@ def shrink(ctx, line, budget=8):
     f = line.split()
     head, toks = f[:2], f[2:]
     decl = [t for t in toks if t[0] in 'NV']
-    ops = [t for t in toks if t[0] in 'SPC']
+    ops = [t for t in toks if t[0] in 'SPCD']
     n = [0]
 
     def run(cand):
@@ -495,11 +524,14 @@ def correspondence(ctx, verdict, pr):
     distinct = set(' '.join(t for t in h.toks) + str(h.start % S) for h in hs if len(h.ops()) >= 2)
     verdict.cov.update(
         evaluations=len(hs), distinct_nontrivial=len(distinct), steps=nsteps,
-        rule='seeded histories on the real State under virtual time: random walks (presentations / replays / sleeps 0 ns..24 h, clean-ups at every phase), the retention edge (sighting second s, clean-up at (s+360) s + {-1,0,+1} ns x sub-second phase x timestamp offset +180/+179/0/-179 x refreshing replay), F1 shape, N=2..64 simultaneous presentations (also under -race), all 256 single-bit variants of the random (both orders), random multi-bit / whole-packet flips / WebSocket re-packaging, malformed stream. distinct = distinct token lists with >= 2 ops',
+        rule='seeded histories on the real State under virtual time: random walks (presentations / replays / sleeps 0 ns..24 h, clean-ups at every phase), the retention edge (sighting second s, clean-up at (s+360) s + {-1,0,+1} ns x sub-second phase x timestamp offset +180/+179/0/-179 x refreshing replay), F1 shape, N=2..64 simultaneous presentations (also under -race) and N=2..9 presentations overlapping deterministically through the clock seam (first presenter held between lookup and insertion), all 256 single-bit variants of the random (both orders), random multi-bit / whole-packet flips / WebSocket re-packaging, malformed stream. distinct = distinct token lists with >= 2 ops',
         samples=[hs[0].line()[:300], [h for h in hs if h.kind == 'e'][0].line()[:300], [h for h in hs if h.kind == 'c'][0].line()[:300]],
         traces_validated_against_impl=len(impl), mismatches=len(mism), oracle_failures=orc,
         input_distribution=dict(kinds=vlib.summarize_dist(kinds), outcomes=outcomes_seen), corpus_cases=len(corpus_lines),
-        race_run=dict(histories=len(rimpl), rc=rrc), exhaustive=False)
+        race_run=dict(histories=len(rimpl), rc=rrc), exhaustive=False,
+        deterministic_overlap=dict(histories=len([h for h in hs if h.kind == 'd']),
+                                   what='D:<k>:<n>: the first presenter is parked inside the clock read of registerRandom (State.WorldState.Now is the seam; in the unchanged code it holds usedRandomM there), n-1 further presentations of the same packet are started meanwhile and watched until finished or waiting for a lock, then the first is released; patterns per presenter before the release (P parked, L waiting for the lock, F finished)',
+                                   patterns=vlib.summarize_dist([p for d in DET_PATTERNS.values() for p in d.values()])))
     return res
 
 
@@ -518,6 +550,12 @@ def search(ctx, verdict, problems):
     h = Hist('srchb', base, 'b')
     k = h.new('tls', h.now // S); v = h.var_bits(k, [255]); h.present(k); h.present(v)
     cands.append(h)
+    # deterministic overlap first (clock seam), then the statistical one
+    for n in (2, 3, 8):
+        h = Hist('srchd%d' % n, base, 'd')
+        k = h.new('tls', h.now // S)
+        h.det(k, n); h.present(k)
+        cands.append(h)
     for n in (2, 8, 64):
         h = Hist('srchc%d' % n, base, 'c')
         k = h.new('tls', h.now // S)
@@ -542,7 +580,7 @@ def replay(ctx, verdict):
     print('history:', line)
     print('implementation:', got)
     if got:
-        ops = [t for t in line.split()[2:] if t[0] in 'SPC']
+        ops = [t for t in line.split()[2:] if t[0] in 'SPCD']
         mrc, merr, model = run_model_lines(ctx, [model_line(line.split()[0], int(line.split()[1]), got[0], ops)], 'replay')
         print('model:         ', model.get(line.split()[0]))
     print('oracle:', res)
